@@ -141,7 +141,7 @@ static int32_t traverse_schema_recursive(
  *       ├── f (required, int32)    -> def=1, rep=1  (from parent e)
  *       └── g (optional, int32)    -> def=2, rep=1  (from e + self)
  */
-static void compute_levels(
+static bool compute_levels(
     parquet_schema_element_t* elements,
     int32_t num_elements,
     int16_t* max_def,
@@ -149,7 +149,7 @@ static void compute_levels(
     int32_t* leaf_indices) {
 
     if (num_elements <= 1) {
-        return;  /* Empty or root-only schema */
+        return true;  /* Empty or root-only schema */
     }
 
     schema_traverse_ctx_t ctx = {
@@ -172,6 +172,10 @@ static void compute_levels(
         }
         next_idx = traverse_schema_recursive(&ctx, next_idx, 0, 0);
     }
+
+    /* A well-formed depth-first list is consumed exactly: every element is
+     * reached and every announced child exists */
+    return next_idx == num_elements;
 }
 
 carquet_schema_t* build_schema(
@@ -189,6 +193,20 @@ carquet_schema_t* build_schema(
         CARQUET_SET_ERROR(error, CARQUET_ERROR_INVALID_METADATA,
             "File metadata has no schema");
         return NULL;
+    }
+
+    /* Below the root, a node is either a group (children, no physical type) or a
+     * leaf (a physical type, no children). The column list is derived from
+     * num_children while carquet_schema_node_is_leaf() reports has_type; a
+     * footer where the two disagree would give callers a different idea of the
+     * columns (and of their value widths) than the reader has. */
+    for (int32_t i = 1; i < metadata->num_schema_elements; i++) {
+        const parquet_schema_element_t* e = &metadata->schema[i];
+        if (e->num_children < 0 || (e->num_children > 0) == e->has_type) {
+            CARQUET_SET_ERROR(error, CARQUET_ERROR_INVALID_SCHEMA,
+                "Schema element %d is neither a group nor a leaf", i);
+            return NULL;
+        }
     }
 
     carquet_schema_t* schema = carquet_arena_calloc(arena, 1, sizeof(carquet_schema_t));
@@ -213,9 +231,13 @@ carquet_schema_t* build_schema(
         return NULL;
     }
 
-    compute_levels(schema->elements, schema->num_elements,
-                   schema->max_def_levels, schema->max_rep_levels,
-                   schema->leaf_indices);
+    if (!compute_levels(schema->elements, schema->num_elements,
+                        schema->max_def_levels, schema->max_rep_levels,
+                        schema->leaf_indices)) {
+        CARQUET_SET_ERROR(error, CARQUET_ERROR_INVALID_SCHEMA,
+            "Schema child counts do not match the element list");
+        return NULL;
+    }
 
     return schema;
 }
